@@ -499,6 +499,11 @@ def check_C16(tier, seed):
                     ops.append(mk("set", t=2, f=o["f"], v=o["v"]))
                 ops += [mk("create", snap=dict(bases["min"], relative_path=["other/t3.wav"])), mk("remove", t=2), mk("remove", t=3)]
                 scripts.append(ops)
+        # paths as other software stores them (Windows separators, mixed case): the lookups of the observation phase then have
+        # near misses that match modulo separator / case (seeded change C16f: a lookup that "canonicalises" the stored spelling)
+        odd = ["..\\Music\\Some Artist\\odd one.mp3", "MiXeD/Case/Track.MP3", "a\\b/c\\d.flac"]
+        scripts.append([mk("create", snap=dict(bases["full"], relative_path=[odd[0]])), mk("create", snap=dict(bases["min"], relative_path=[odd[1]])),
+                        mk("set", t=2, f="relative_path", v=[odd[2]]), mk("update", t=1, snap=dict(bases["min"], relative_path=[odd[1]])), mk("remove", t=2)])
         ws = []
         # sessions on disk: observe-only sessions between reloads (what a connection does when it is CLOSED counts: the tables
         # after the reload must be the tables before the last handle was released), then a setter, then observe-only again
@@ -509,6 +514,8 @@ def check_C16(tier, seed):
                 ops += [mk("set", t=1, f=o["f"], v=o["v"]), mk("reopen")]
             ops += [mk("create", snap=dict(bases["min"], relative_path=["other/t2.wav"])), mk("reopen"), mk("remove", t=1), mk("reopen"), mk("reopen")]
             dscripts.append(ops)
+        dscripts.append([mk("create", snap=dict(bases["full"], relative_path=[odd[0]])), mk("reopen"), mk("create", snap=dict(bases["min"], relative_path=[odd[1]])),
+                         mk("reopen"), mk("reopen")])
         for s in (vlib.quick_schemas(seed, 1) if tier == "quick" else vlib.ALL):
             ws.append(Workload(s, scripts, [], flags={"rep": True, "stale_get": True}, tag="t", origin=res["instance"]))
             ws.append(Workload(s, dscripts, [], mode="disk", flags={"rep": True}, tag="td", origin=res["instance"]))
@@ -622,14 +629,52 @@ def check_C10(tier, seed):
         smoke_rest(ws, schemas, tier, smoke)
         return ws
 
+    def build_tracks(wd, mc_stats):
+        # track level (the property names "track and crate operations"): every base snapshot of MCTrackFields - among them the one
+        # made of the values a storage format reserves (zero, -1, empty) - written by create_track / update, every value class of
+        # every field written by its setter, seed-chosen snapshots; the library is closed and loaded again after EVERY call and
+        # all tracks are observed through fresh handles (TraceTrackFields!TReopen: Unchanged).  What a connection keeps to itself
+        # (seeded change C10f: decoded performance data remembered per connection, not normalised the way the stored blob is)
+        # shows here and nowhere else.
+        import trackchecks
+        res, bases, seqs = trackchecks.run_mc_track(wd, 1)
+        mc_stats.append({"instance": res["instance"], "states": res["states"], "transitions": res["generated"]})
+        mk = trackchecks.mk
+        singles = [sq[0] for sq in seqs if len(sq) == 1 and sq[0]["f"] not in ("hot_cue_at", "loop_at")]
+        slots = [sq[0] for sq in seqs if len(sq) == 1 and sq[0]["f"] in ("hot_cue_at", "loop_at")]
+        r = random.Random(seed * 41)
+        names = sorted(bases)
+        scripts = []
+        for a in names:
+            for b in (names if tier != "quick" else r.sample(names, 2)):
+                scripts.append([mk("create", snap=bases[a]), mk("reopen"), mk("update", t=1, snap=bases[b]), mk("reopen"),
+                                mk("create", snap=dict(bases[a], relative_path=["other/t2.flac"])), mk("reopen"), mk("remove", t=1), mk("reopen")])
+        r.shuffle(singles)
+        for i in range(0, len(singles), 8):
+            ops = [mk("create", snap=bases["full"]), mk("create", snap=dict(bases["min"], relative_path=["other/t2.wav"]))]
+            for o in singles[i:i + 8]:
+                ops += [mk("set", t=1, f=o["f"], v=o["v"]), mk("reopen"), mk("set", t=2, f=o["f"], v=o["v"]), mk("reopen")]
+            scripts.append(ops)
+        for o in r.sample(slots, min(len(slots), 12 if tier == "quick" else len(slots))):
+            scripts.append([mk("create", snap=bases["full"]), mk("set", t=1, f=o["f"], v=o["v"]), mk("reopen")])
+        for k in range(20 if tier == "quick" else 200):
+            a, b = trackchecks.random_snapshot(r, k), trackchecks.random_snapshot(r, k + 100000)
+            scripts.append([mk("create", snap=a), mk("reopen"), mk("update", t=1, snap=b), mk("reopen"), mk("create", snap=b), mk("reopen")])
+        ws = []
+        for s in (vlib.quick_schemas(seed, 1) if tier == "quick" else vlib.ALL):
+            ws.append(Workload(s, scripts, [], mode="disk", tag="tk", origin=res["instance"]))
+        return ws
+
+    import trackchecks as _tc
     return history_check(
-        "C10", tier, seed, build,
+        "C10", tier, seed, build, also=[{"driver": "trackdriver", "build": build_tracks, "module": "TraceTrackFields", "cfg": _tc.track_cfg()}],
         rule="histories from the bounded Library graphs are executed on libraries created on disk (tmpfs); after EVERY call "
              "all handles are released, database_exists() and load_database(dir, loaded) are called and the complete "
              "observation is taken again: TLC (action Reopen: UNCHANGED state) requires it to equal the abstract state, "
              "`loaded` to be the schema the library was created with (out-parameter pre-set to a sentinel) and "
              "database_exists() to be true; create_or_load / missing / empty directories are covered by C13's check",
-        assumptions=["track field persistence is covered by the C01/C06 checks' reopen mode"])
+        assumptions=["track level: snapshots and all getters of all tracks after close + load equal those before (TraceTrackFields!TReopen), "
+                     "for every base snapshot, every value class of every field and seed-chosen snapshots"])
 
 
 def check_C11(tier, seed):
